@@ -27,6 +27,19 @@ type mergeCase struct {
 	pc    *Term
 	res   value
 	panic interface{}
+	seq   map[string]int
+}
+
+func sameSeq(a, b map[string]int) bool {
+	if len(a) != len(b) {
+		return false
+	}
+	for k, v := range a {
+		if b[k] != v {
+			return false
+		}
+	}
+	return true
 }
 
 type entryState struct {
@@ -131,6 +144,10 @@ func (i *interpreter) callMerged(run func() value) value {
 			pc = mkAnd(pc, t)
 		}
 		c.pc = pc
+		c.seq = make(map[string]int, len(p.seq))
+		for a, b := range p.seq {
+			c.seq[a] = b
+		}
 		cases = append(cases, c)
 		if len(cases) > 512 {
 			abort("mergeable function has more than 512 paths")
@@ -138,11 +155,6 @@ func (i *interpreter) callMerged(run func() value) value {
 	}
 	p.restore(entry)
 	p.nfresh = maxFresh
-	for a, b := range maxSeq {
-		if b > p.seq[a] {
-			p.seq[a] = b
-		}
-	}
 	if len(cases) == 0 {
 		panic(pathEnd{})
 	}
@@ -162,14 +174,15 @@ func (i *interpreter) callMerged(run func() value) value {
 		pc    *Term
 		res   value
 		panic interface{}
+		seq   map[string]int
 	}
 	var groups []*group
 	for _, c := range cases {
 		placed := false
 		if c.panic == nil {
 			for _, g := range groups {
-				if g.panic != nil {
-					continue
+				if g.panic != nil || !sameSeq(g.seq, c.seq) {
+					continue // different number of stub readings: a different shape
 				}
 				if m, ok := mergeShape(c.pc, c.res, g.res); ok {
 					g.res = m
@@ -180,7 +193,7 @@ func (i *interpreter) callMerged(run func() value) value {
 			}
 		}
 		if !placed {
-			groups = append(groups, &group{pc: c.pc, res: c.res, panic: c.panic})
+			groups = append(groups, &group{pc: c.pc, res: c.res, panic: c.panic, seq: c.seq})
 		}
 	}
 	var chosen *group
@@ -193,6 +206,9 @@ func (i *interpreter) callMerged(run func() value) value {
 				break
 			}
 		}
+	}
+	for a, b := range chosen.seq {
+		p.seq[a] = b
 	}
 	if chosen.panic != nil {
 		panic(chosen.panic)
